@@ -18,7 +18,19 @@ func (core *JApiCore) collectUserTypes() *jerr.JApiError {
 	if je := core.collectRawUserTypes(); je != nil {
 		return je
 	}
-	return core.compileUserTypes()
+	if je := core.compileUserTypes(); je != nil {
+		return je
+	}
+
+	// A user type without a name has to be reported here, otherwise the schema
+	// library refuses its empty name when it is added to the schema of another
+	// directive, and the error is located in that directive.
+	if core.rawUserTypes.Has("") {
+		return core.rawUserTypes.GetValue("").KeywordError(
+			fmt.Sprintf("%s (%s)", jerr.RequiredParameterNotSpecified, "Name"),
+		)
+	}
+	return nil
 }
 
 func (core *JApiCore) collectRawUserTypes() *jerr.JApiError {
